@@ -1159,6 +1159,8 @@ package godi
 //@   unchecked nil-iface-call#3: reflect.PointerTo never returns nil
 //@   requires tracked_nonnil: forall i int :: 0 <= i && i < len(r.allDescriptors) ==> r.allDescriptors[i] != nil
 //@   requires maps: regmaps(r) && r.analyzer != nil
+// the instance that will be stored under an interface alias is an instance of the registered type: that type itself implements the alias
+//@   at before call r.registerDescriptor#3 : assert[C04,C15] alias_is_implemented_by_the_registered_type by(maps): ext("(reflect.Type).Implements", "bool", descriptor.Type, interfaceType)
 //@   ensures[C15] nil_constructor_rejected: service == nil ==> typeis(result, "*ValidationError") && as(result, "*ValidationError").Cause == ErrConstructorNil && ncalls("collection.registerDescriptor") == 0
 //@   ensures[C17] registers_in_this_collection_only: forall c int :: 0 <= c && c < ncalls("collection.registerDescriptor") ==> callarg("collection.registerDescriptor", c, 0) == r
 //@        && callarg("collection.registerDescriptor", c, 1, "*Descriptor") != nil && callarg("collection.registerDescriptor", c, 1, "*Descriptor").Lifetime == lifetime
